@@ -217,6 +217,10 @@ func TestC15(t *testing.T) {
 			// replays carry the expression; re-derive the case for numbers via the reference evaluator is not possible here,
 			// so replay re-checks structural relations only through a fresh generic run
 			expr := rp.Extra["expr"]
+			if expr == "shared" {
+				c.c15Shared(s)
+				return
+			}
 			if f, err := strconv.ParseFloat(strings.Trim(expr, "()"), 64); err == nil && !strings.ContainsAny(expr, "|&<\"") {
 				c.c15Value(s, "replay", numCase(f), false)
 				return
@@ -267,6 +271,12 @@ func TestC15(t *testing.T) {
 			for _, k := range []c15Case{{expr: "nil", fixed: "nil"}, {expr: bn.KwTrue, fixed: "true"}, {expr: bn.KwFalse, fixed: "false"}, {expr: "(1 < 2)", fixed: "true"}, {expr: "(!1)", fixed: "false"}} {
 				c.c15Value(s, "boundary-numbers", k, true)
 			}
+		})
+		c.Sub("shared-containers", func(s *Sub) {
+			if c.Shard != 0 {
+				return
+			}
+			c.c15Shared(s)
 		})
 		c.Sub("bangla-decomposables", func(s *Sub) {
 			if c.Shard != 0 {
@@ -337,4 +347,36 @@ func TestC15(t *testing.T) {
 			c.c15Value(s, "rand-strings", c15Case{expr: "\"" + str + "\"", str: str}, false)
 		})
 	})
+}
+
+// c15Shared: the same container occurring several times inside one printed value must be shown in full each time.
+func (c *Ctx) c15Shared(s *Sub) {
+	P := bn.KwPrint
+	for _, inner := range []string{"[1, 2]", "[\"ক\", \"খ\"]", "{m: 1}", "[[7]]", "[]", "{}", "[nil, " + bn.KwTrue + "]"} {
+		src := bn.KwVar + " a = " + inner + ";\n" + P + " a;\n" + P + " [a];\n" + P + " [a, a];\n" + P + " [a, [a], a];\n" + P + " {p: a, q: a};\n" + P + " [{p: a}, {p: a}];\n" +
+			bn.KwFun + " dup(x) { " + bn.KwReturn + " [x, x]; }\n" + P + " dup(a);\n" + P + " dup(dup(a));\n" + P + " [" + inner + ", " + inner + "];\n" + P + " \"end\";\n"
+		r := c.RunB(src, "")
+		c.Ev.Case("shared-containers", src, true, "container")
+		ln := strings.Split(strings.TrimSuffix(r.Out, "\n"), "\n")
+		bad := ""
+		if r.Class() != "clean" || len(ln) != 10 || ln[9] != "end" {
+			bad = "printing shared containers failed"
+		} else {
+			one := ln[0]
+			// every occurrence of the container must be shown in full: the rendering of a appears as often as a occurs
+			want := []int{1, 1, 2, 3, 2, 2, 2, 4, 2}
+			for i, w := range want {
+				if strings.Count(ln[i], one) < w {
+					bad = fmt.Sprintf("line %d (%q) does not show all %d occurrences of %q", i+1, ln[i], w, one)
+					break
+				}
+			}
+			if bad == "" && strings.Count(ln[8], one) == 2 && ln[8] != ln[2] {
+				bad = fmt.Sprintf("two equal literals print %q but the same array twice prints %q", ln[8], ln[2])
+			}
+		}
+		if bad != "" {
+			s.Violation(Replay{Check: "print", Sig: "shared-container", Source: src, Extra: map[string]string{"expr": "shared"}, Note: bad, Observed: r.Describe()})
+		}
+	}
 }
